@@ -9,9 +9,43 @@ Definition ref_pos (l : list positive) (ref : option positive) (p : nat) : Prop 
 Definition end_pos (l : list positive) (del_end : option positive) (p q : nat) : Prop :=
   match del_end with None => q = p | Some d => (p < q)%nat /\ nth_error l (q - 1) = Some d end.
 
-(* inserted tokens are free, or lie inside the removed range *)
-Definition valid_tokens (l tokens : list positive) (p q : nat) : Prop :=
-  NoDup tokens /\ forall t, In t tokens -> ~ In t l \/ In t (firstn (q - p) (skipn p l)).
+(* inserted tokens are listed once and are free (no store_handle), or lie inside the removed range *)
+Definition valid_tokens (s : store) (tokens : list positive) (p q : nat) : Prop :=
+  NoDup tokens /\ forall t, In t tokens -> free s t \/ In t (firstn (q - p) (skipn p (abs s))).
+
+(* no token of another store around (handles are None or name this store) *)
+Definition pure (s : store) : Prop := forall t, ~ foreign s t.
+
+Lemma pure_free s t : Inv s -> pure s -> ~ In t (abs s) -> free s t.
+Proof.
+  intros [I _] Hp Hn. destruct (hnd s t) as [[b j]|] eqn:E.
+  - exfalso. apply Hn. apply (g_hin _ _ I). rewrite E. discriminate.
+  - destruct (hnd_none_cases s t E) as [?|Hf]; [assumption|]. exfalso. exact (Hp t Hf).
+Qed.
+
+(* what every mutator leaves alone: the identity of the store, the handle of every token that is neither
+   in the store nor inserted (in particular: tokens of other stores), and removed tokens end up detached *)
+Definition frames (s s' : store) (tokens : list positive) (p q : nat) : Prop :=
+  s_id s' = s_id s /\
+  (forall t, ~ In t (abs s) -> ~ In t tokens -> raw s' t = raw s t) /\
+  (forall t, In t (firstn (q - p) (skipn p (abs s))) -> ~ In t tokens -> raw s' t = None).
+
+Lemma frames_pure s s' tokens p q : Inv s -> Inv s' -> (p <= q)%nat ->
+  abs s' = firstn p (abs s) ++ tokens ++ skipn q (abs s) -> frames s s' tokens p q -> pure s -> pure s'.
+Proof.
+  intros [I _] [I' _] Lpq Ea (Eid & F1 & F2) Hp t Hf.
+  pose proof (foreign_hnd s' t Hf) as Hn.
+  assert (~ In t (abs s')) as Hna.
+  { intro Hin. apply In_nth_error in Hin as [k Hk]. destruct (locate_inv s' k t I' Hk) as (_ & b & j & _ & _ & _ & Hh & _). congruence. }
+  assert (~ In t tokens) as Hnt by (intro; apply Hna; rewrite Ea; apply in_or_app; right; apply in_or_app; auto).
+  destruct Hf as (sid & b & j & Er & Ns).
+  destruct (in_dec Pos.eq_dec t (abs s)) as [Hin|Hin].
+  - destruct (in_dec Pos.eq_dec t (firstn (q - p) (skipn p (abs s)))) as [Hr|Hr]; [rewrite (F2 t Hr Hnt) in Er; discriminate|].
+    apply Hna. rewrite Ea. rewrite (three_split (abs s) p q Lpq) in Hin.
+    apply in_app_or in Hin as [?|Hin]; [apply in_or_app; auto|].
+    apply in_app_or in Hin as [?|?]; [contradiction|apply in_or_app; right; apply in_or_app; auto].
+  - apply (Hp t). exists sid, b, j. rewrite <- (F1 t Hin Hnt), <- Eid. auto.
+Qed.
 
 Definition list_splice (l tokens : list positive) (p q : nat) : list positive :=
   firstn p l ++ tokens ++ skipn q l.
@@ -30,9 +64,10 @@ Qed.
 
 Theorem splice_spec LF s tokens ref del_end p q s' r :
   1 <= LF -> Inv s -> ref_pos (abs s) ref p -> end_pos (abs s) del_end p q ->
-  valid_tokens (abs s) tokens p q ->
+  valid_tokens s tokens p q ->
   splice LF s tokens ref del_end = (s', r) ->
-  r = Ok tt /\ Inv s' /\ abs s' = list_splice (abs s) tokens p q /\ (forall t, txt s' t = txt s t).
+  r = Ok tt /\ Inv s' /\ abs s' = list_splice (abs s) tokens p q /\ (forall t, txt s' t = txt s t) /\
+  frames s s' tokens p q.
 Proof.
   intros HLF II Hp Hq [NDt Hv] H. pose proof II as [I L].
   (* start *)
@@ -74,9 +109,10 @@ Proof.
 Qed.
 
 Theorem insert_before_spec LF s tokens ref p s' r :
-  1 <= LF -> Inv s -> ref_pos (abs s) ref p -> NoDup tokens -> (forall t, In t tokens -> ~ In t (abs s)) ->
+  1 <= LF -> Inv s -> ref_pos (abs s) ref p -> NoDup tokens -> (forall t, In t tokens -> free s t) ->
   insert_before LF s ref tokens = (s', r) ->
-  r = Ok tt /\ Inv s' /\ abs s' = list_splice (abs s) tokens p p /\ (forall t, txt s' t = txt s t).
+  r = Ok tt /\ Inv s' /\ abs s' = list_splice (abs s) tokens p p /\ (forall t, txt s' t = txt s t) /\
+  frames s s' tokens p p.
 Proof.
   intros HLF II Hp NDt Hf H. apply (splice_spec LF s tokens ref None p p s' r HLF II Hp); [reflexivity| |exact H].
   split; [assumption|]. intros t Ht. left. apply Hf; assumption.
@@ -85,9 +121,10 @@ Qed.
 Theorem insert_after_spec LF s tokens ref p s' r :
   1 <= LF -> Inv s ->
   match ref with None => p = 0%nat | Some r0 => (1 <= p)%nat /\ nth_error (abs s) (p - 1) = Some r0 end ->
-  NoDup tokens -> (forall t, In t tokens -> ~ In t (abs s)) ->
+  NoDup tokens -> (forall t, In t tokens -> free s t) ->
   insert_after LF s ref tokens = (s', r) ->
-  r = Ok tt /\ Inv s' /\ abs s' = list_splice (abs s) tokens p p /\ (forall t, txt s' t = txt s t).
+  r = Ok tt /\ Inv s' /\ abs s' = list_splice (abs s) tokens p p /\ (forall t, txt s' t = txt s t) /\
+  frames s s' tokens p p.
 Proof.
   intros HLF II Hp NDt Hf H. pose proof II as [I L]. unfold insert_after in H.
   assert (exists si bs sj, nth_error (s_blocks s) si = Some bs /\ (sj <= length (toks s bs))%nat /\
@@ -102,15 +139,16 @@ Proof.
       replace (Z.of_nat j + 1) with (Z.of_nat (S j)) in H by lia. exact H.
     - destruct (first_block s I) as [b0 Hb0]. exists 0%nat, b0, 0%nat.
       split; [exact Hb0|]. split; [lia|]. split; [subst p; reflexivity|exact H]. }
-  unfold list_splice. rewrite Ep.
+  unfold list_splice, frames. rewrite Ep.
   apply (splice__spec LF s tokens si sj si sj bs bs s' r HLF II Hbs Hbs Lsj Lsj); [right; lia|exact NDt| |exact H'].
   intros t Ht. left. apply Hf; assumption.
 Qed.
 
 Theorem replace_spec LF s t r0 k s' r :
-  1 <= LF -> Inv s -> nth_error (abs s) k = Some t -> (r0 = t \/ ~ In r0 (abs s)) ->
+  1 <= LF -> Inv s -> nth_error (abs s) k = Some t -> (r0 = t \/ free s r0) ->
   replace LF s t r0 = (s', r) ->
-  r = Ok tt /\ Inv s' /\ abs s' = list_splice (abs s) [r0] k (S k) /\ (forall u, txt s' u = txt s u).
+  r = Ok tt /\ Inv s' /\ abs s' = list_splice (abs s) [r0] k (S k) /\ (forall u, txt s' u = txt s u) /\
+  frames s s' [r0] k (S k).
 Proof.
   intros HLF II Hk Hr H. apply (splice_spec LF s [r0] (Some t) (Some t) k (S k) s' r HLF II); [exact Hk| | |exact H].
   - split; [lia|]. replace (S k - 1)%nat with k by lia. exact Hk.
@@ -124,7 +162,8 @@ Theorem remove_spec LF s a b ka kb s' r :
   1 <= LF -> Inv s -> nth_error (abs s) ka = Some a ->
   match b with None => kb = ka | Some b0 => (ka <= kb)%nat /\ nth_error (abs s) kb = Some b0 end ->
   remove LF s a b = (s', r) ->
-  r = Ok tt /\ Inv s' /\ abs s' = list_splice (abs s) [] ka (S kb) /\ (forall u, txt s' u = txt s u).
+  r = Ok tt /\ Inv s' /\ abs s' = list_splice (abs s) [] ka (S kb) /\ (forall u, txt s' u = txt s u) /\
+  frames s s' [] ka (S kb).
 Proof.
   intros HLF II Ha Hb H. unfold remove in H.
   apply (splice_spec LF s [] (Some a) (Some (match b with Some x => x | None => a end)) ka (S kb) s' r HLF II);
